@@ -7,9 +7,11 @@ import (
 	"fmt"
 	"io"
 	"net"
+	"runtime"
 	"sort"
 	"sync"
 	"testing"
+	"testing/synctest"
 	"time"
 
 	"github.com/fiorix/go-diameter/v4/diam"
@@ -413,6 +415,171 @@ func TestC05(t *testing.T) {
 		if c.WantSample() {
 			c.Sample(map[string]any{"via": "diam.NewConn over memnet", "message_sizes": sizes(msgs), "cuts": short(cuts)})
 		}
+	})
+
+	// 4b. several connections reading at the same time, their fragments interleaved:
+	//     a message must never contain bytes that arrived on another connection
+	rec.Suite("conn-concurrent", rec.N(300, 20000), func(c *ev.Case) {
+		r := c.R
+		K := 2 + r.IntN(3)
+		c.Class("conn-concurrent/K=%d", K)
+		type side struct {
+			mc   *memnet.Conn
+			msgs [][]byte
+			mu   sync.Mutex
+			got  [][]byte
+		}
+		sides := make([]*side, K)
+		var streams [][]byte
+		for i := range sides {
+			sd := &side{mc: memnet.NewConn()}
+			nm := 2 + r.IntN(6)
+			var st []byte
+			for k := 0; k < nm; k++ {
+				b := []int{12, 100, 1000, 1024, 1028, 4096, 2000}[r.IntN(7)]
+				m := seqMsg(uint32(i)<<20|uint32(c.I%1000)<<8|uint32(k+1), b)
+				sd.msgs = append(sd.msgs, m)
+				st = append(st, m...)
+			}
+			streams = append(streams, st)
+			h := diam.HandlerFunc(func(_ diam.Conn, m *diam.Message) {
+				b, _ := m.Serialize()
+				sd.mu.Lock()
+				sd.got = append(sd.got, b)
+				sd.mu.Unlock()
+			})
+			if _, err := diam.NewConn(sd.mc, "peer", h, ctx.Parser); err != nil {
+				c.Fail(ev.Sig{"op": "setup"}, nil, nil, "NewConn: %v", err)
+				return
+			}
+			sides[i] = sd
+		}
+		// round-robin fragments of a few dozen bytes, so that every body is read in pieces
+		off := make([]int, K)
+		for more := true; more; {
+			more = false
+			for i := range sides {
+				if off[i] < len(streams[i]) {
+					end := min(off[i]+17+r.IntN(60), len(streams[i]))
+					sides[i].mc.Feed(streams[i][off[i]:end])
+					off[i] = end
+					more = true
+					if r.IntN(3) == 0 {
+						runtime.Gosched()
+					}
+				}
+			}
+		}
+		for _, sd := range sides {
+			sd.mc.FeedEOF()
+		}
+		for i, sd := range sides {
+			select {
+			case <-sd.mc.Closed():
+			case <-time.After(60 * time.Second):
+				c.Fail(ev.Sig{"op": "watchdog"}, nil, nil, "connection %d not closed 60 s after EOF", i)
+				return
+			}
+			sd.mu.Lock()
+			d := cmpSeq(sd.got, sd.msgs)
+			sd.mu.Unlock()
+			if d != "" {
+				c.Fail(ev.Sig{"op": "sequence", "how": "concurrent-connections"}, streams[i], nil, "connection %d of %d reading at the same time: %s", i, K, d)
+				return
+			}
+			c.Event("messages_delivered", len(sd.msgs))
+		}
+		c.Event("conn_streams", K)
+	})
+
+	// 4c. a server with a read timeout: fragments arrive with pauses, one of them
+	//     longer than the timeout, at every kind of position. Whatever the server
+	//     does about the timeout, what it hands to the handler must be a prefix
+	//     of the messages sent - never a message made of bytes from the middle.
+	rec.Suite("read-timeout", rec.N(400, 20000), func(c *ev.Case) {
+		r := c.R
+		nm := 2 + r.IntN(4)
+		var msgs [][]byte
+		var stream []byte
+		for k := 0; k < nm; k++ {
+			m := seqMsg(uint32(c.I*16+k+1), []int{12, 56, 100, 1028}[r.IntN(4)])
+			msgs = append(msgs, m)
+			stream = append(stream, m...)
+		}
+		// where the long pause happens: inside a header, inside a body, on a boundary, or nowhere
+		where := r.IntN(4)
+		victim := r.IntN(nm)
+		start := 0
+		for k := 0; k < victim; k++ {
+			start += len(msgs[k])
+		}
+		var pauseAt int
+		switch where {
+		case 0:
+			pauseAt = start + 1 + r.IntN(19)
+		case 1:
+			pauseAt = start + 20 + r.IntN(len(msgs[victim])-20)
+		case 2:
+			pauseAt = start
+		default:
+			pauseAt = -1
+		}
+		c.Class("read-timeout/where=%d", where)
+		var got [][]byte
+		var mu sync.Mutex
+		leak := runBubbleWD(t, rec, c, 60*time.Second, func() {
+			mc := memnet.NewConn()
+			ln := memnet.NewListener()
+			srv := &diam.Server{Handler: diam.HandlerFunc(func(_ diam.Conn, m *diam.Message) {
+				b, _ := m.Serialize()
+				mu.Lock()
+				got = append(got, b)
+				mu.Unlock()
+			}), Dict: ctx.Parser, ReadTimeout: 100 * time.Millisecond}
+			go srv.Serve(ln)
+			ln.Offer(mc)
+			off := 0
+			for off < len(stream) {
+				end := min(off+7+r.IntN(40), len(stream))
+				if pauseAt > off && pauseAt < end {
+					end = pauseAt
+				}
+				if off == pauseAt {
+					time.Sleep(350 * time.Millisecond) // longer than the read timeout
+				} else {
+					time.Sleep(time.Duration(r.IntN(1000)) * time.Microsecond)
+				}
+				mc.Feed(stream[off:end])
+				off = end
+			}
+			time.Sleep(time.Second)
+			synctest.Wait()
+			mc.FeedEOF()
+			ln.Close()
+			time.Sleep(time.Second)
+			synctest.Wait()
+		})
+		if leak != "" && !c.Failed() {
+			c.Fail(ev.Sig{"op": "bubble-leak"}, nil, nil, "goroutines left blocked: %s", leak)
+			return
+		}
+		mu.Lock()
+		defer mu.Unlock()
+		if len(got) > len(msgs) {
+			c.Fail(ev.Sig{"op": "sequence", "how": "read-timeout"}, stream, nil, "%d messages reached the handler, %d were sent", len(got), len(msgs))
+			return
+		}
+		for i := range got {
+			if !bytes.Equal(got[i], msgs[i]) {
+				c.Fail(ev.Sig{"op": "sequence", "how": "read-timeout"}, stream, nil, "with a read timeout of 100 ms and a 350 ms pause at byte %d (kind %d): message %d handed to the handler is not message %d that was sent (%d bytes vs %d)", pauseAt, where, i, i, len(got[i]), len(msgs[i]))
+				return
+			}
+		}
+		if where == 3 && len(got) != len(msgs) {
+			c.Fail(ev.Sig{"op": "sequence", "how": "read-timeout"}, stream, nil, "no pause exceeded the timeout but only %d of %d messages were delivered", len(got), len(msgs))
+			return
+		}
+		c.Event("timeout_scenarios", 1)
 	})
 
 	// 5. thorough: loopback TCP with TCP_NODELAY writes of the fragments
